@@ -260,7 +260,7 @@ pub fn random_banks<R: Rng>(rng: &mut R, ci: u64) -> (u32, Vec<BankB>, &'static 
         // one inconsistency
         // every kind in turn on even event numbers (so that each is reached whatever the seed), drawn on odd ones
         let fault = if banks.len() < 2 { "none" } else { *pick_fault(rng, ci, &["none", "none", "none", "rename", "rename-chunk", "swap", "dup", "dup-empty", "drop-trg", "bv", "flip", "unknown",
-                      "drop-bank", "foreign-mac", "not-installed", "dup-trg", "empty16", "near-name", "near-name", "trg-bit", "rename-channel", "rename-board"]) };
+                      "drop-bank", "foreign-mac", "not-installed", "dup-trg", "empty16", "near-name", "near-name", "trg-bit", "rename-channel", "rename-board", "empty-bank"]) };
         let i = rng.gen_range(0..banks.len());
         match fault {
             "rename-chunk" => {
@@ -323,6 +323,18 @@ pub fn random_banks<R: Rng>(rng: &mut R, ci: u64) -> (u32, Vec<BankB>, &'static 
                     if banks.iter().all(|b| b.name != name) {
                         banks[k].name = name;
                     }
+                }
+            }
+            "empty-bank" => {
+                // an extra bank of length zero: a free wire / pad / second TRG name, an unknown or a near-miss name
+                let used: std::collections::HashSet<Vec<u8>> = banks.iter().map(|b| b.name.clone()).collect();
+                let mut cands: Vec<String> = vec!["XXXX".into(), "TRBB".into(), "C99A".into(), "PCXX".into(), "ATAT".into(), "C09a".into()];
+                let (wn, _, wc) = fab.wire[&ws[200]].clone();
+                cands.push(wire_bank_name(&wn, wc));
+                cands.push(format!("PC{}", fab.pad.values().next().unwrap().0));
+                let name = cands[ci as usize % cands.len()].clone();
+                if name == "ATAT" || !used.contains(name.as_bytes()) {
+                    banks.push(BankB::new(&name, vec![]));
                 }
             }
             "unknown" => banks[i].name = b"ZZZZ".to_vec(),
